@@ -172,6 +172,12 @@ def make_specs():
     return specs
 
 
+def same_segment(s):
+    # both predicates given as module paths that end in the same identifier (every other function
+    # that has both): each attribute still has to reach its own function
+    return s["cache_if"] and s["invalidate_on"] and s["fid"] % 2 == 0
+
+
 def attr_list(s):
     parts = []
     if s["limit"] is not None:
@@ -194,9 +200,9 @@ def attr_list(s):
     if s["deps"]:
         parts.append("dependencies = [" + ", ".join(f'"{x}"' for x in s["deps"]) + "]")
     if s["cache_if"]:
-        parts.append(f"cache_if = pred_{s['fid']}")
+        parts.append(f"cache_if = adm_{s['fid']}::check" if same_segment(s) else f"cache_if = pred_{s['fid']}")
     if s["invalidate_on"]:
-        parts.append(f"invalidate_on = chk_{s['fid']}")
+        parts.append(f"invalidate_on = inv_{s['fid']}::check" if same_segment(s) else f"invalidate_on = chk_{s['fid']}")
     rr = random.Random(s["fid"] * 7919 + args.seed)
     rr.shuffle(parts)
     return ", ".join(parts)
@@ -254,10 +260,14 @@ def emit(specs):
         body_twin = f"        let x = vhooks::twin({fid}, {dig_expr});\n        {rt['mk']}\n"
         fname, tname = f"f{fid}", f"t{fid}"
         attr_line = f"#[{macro}({attrs})]" if attrs else f"#[{macro}]"
-        if s["cache_if"]:
-            w(f"fn pred_{fid}(k: &String, v: &{rt['ty']}) -> bool {{ vhooks::pred({fid}, k, vhooks::dg(v)) }}")
-        if s["invalidate_on"]:
-            w(f"fn chk_{fid}(k: &String, v: &{rt['ty']}) -> bool {{ vhooks::check({fid}, k, vhooks::dg(v)) }}")
+        if same_segment(s):
+            w(f"mod adm_{fid} {{ use super::*; pub fn check(k: &String, v: &{rt['ty']}) -> bool {{ vhooks::pred({fid}, k, vhooks::dg(v)) }} }}")
+            w(f"mod inv_{fid} {{ use super::*; pub fn check(k: &String, v: &{rt['ty']}) -> bool {{ vhooks::check({fid}, k, vhooks::dg(v)) }} }}")
+        else:
+            if s["cache_if"]:
+                w(f"fn pred_{fid}(k: &String, v: &{rt['ty']}) -> bool {{ vhooks::pred({fid}, k, vhooks::dg(v)) }}")
+            if s["invalidate_on"]:
+                w(f"fn chk_{fid}(k: &String, v: &{rt['ty']}) -> bool {{ vhooks::check({fid}, k, vhooks::dg(v)) }}")
         if recv == "free":
             w(f"{attr_line}\npub {asyncness}fn {fname}({full_params}) -> {rt['ty']} {{\n{body_dec}}}")
             w(f"pub fn {tname}({full_params}) -> {rt['ty']} {{\n{body_twin}}}")
